@@ -298,6 +298,9 @@ func checkScalar(c *activCase, v *verdict) {
 		node := network.NewNNode(7, network.HiddenNeuron)
 		node.ActivationType = t
 		node.ActivationSum = x
+		if xi := int(math.Float64bits(x) % 3); xi > 0 {
+			node.Params = auxProbes[xi] // a node may carry trait-derived parameters; no closed form reads them
+		}
 		var err error
 		p := vhu.Guard(func() { err = network.ActivateNode(node, a) })
 		v.evals++
@@ -332,7 +335,11 @@ func checkModule(c *activCase, v *verdict) {
 		arg := append([]float64(nil), in...)
 		var got []float64
 		var err error
-		p := vhu.Guard(func() { got, err = a.ActivateModuleByType(arg, nil, t) })
+		var modAux []float64
+		if len(in)%2 == 0 {
+			modAux = auxProbes[len(in)%len(auxProbes)]
+		}
+		p := vhu.Guard(func() { got, err = a.ActivateModuleByType(arg, modAux, t) })
 		v.evals++
 		switch {
 		case p != "":
@@ -356,6 +363,7 @@ func checkModule(c *activCase, v *verdict) {
 		// the same through a real module node (network.ActivateModule)
 		module := network.NewNNode(100, network.HiddenNeuron)
 		module.ActivationType = t
+		module.Params = modAux
 		for i, x := range in {
 			s := network.NewNNode(i+1, network.InputNeuron)
 			s.SensorLoad(x)
